@@ -511,6 +511,10 @@ pub struct RunOut {
     pub final_polls: Vec<(usize, PR, Option<bool>, PR, Option<bool>)>,
     pub owners_alive_after_join: usize,
     pub final_value: u64,
+    /// after the join, while handles are still alive: (observable_count, subscriber_count,
+    /// strong_count, weak_count) as reported, and (owners, subscribers, weak references) alive
+    #[serde(default)]
+    pub counts: Option<((usize, usize, usize, usize), (usize, usize, usize))>,
 }
 
 pub fn execute(case: &ThrCase) -> Result<RunOut, String> {
@@ -652,6 +656,13 @@ fn finish(mut ctxs: Vec<ThreadCtx>, main_owner: Option<SharedObservable<u64>>, c
     }
     // final value as seen by a subscriber's get (works with or without owners)
     let final_value = ctxs.iter().find_map(|c| c.sub.as_ref().map(|s| s.get())).or_else(|| main_owner.as_ref().map(|o| o.get())).unwrap_or(u64::MAX);
+    // C19: at this quiescent moment the counts are exact
+    let counts = {
+        let subs_alive = ctxs.iter().filter(|c| c.sub.is_some()).count();
+        let weaks_alive = ctxs.len();
+        let any_owner = main_owner.as_ref().or_else(|| ctxs.iter().find_map(|c| c.owner()));
+        any_owner.map(|o| ((o.observable_count(), o.subscriber_count(), o.strong_count(), o.weak_count()), (owners_alive, subs_alive, weaks_alive)))
+    };
     // drop every remaining owner: every stream must end now
     drop(main_owner);
     for c in ctxs.iter_mut() {
@@ -671,7 +682,7 @@ fn finish(mut ctxs: Vec<ThreadCtx>, main_owner: Option<SharedObservable<u64>>, c
     }
     let mut recs: Vec<Rec> = ctxs.into_iter().flat_map(|c| c.recs).collect();
     recs.sort_by_key(|r| r.inv);
-    RunOut { last_seen, recs, trace, widths, init, final_polls, owners_alive_after_join: owners_alive, final_value }
+    RunOut { last_seen, recs, trace, widths, init, final_polls, owners_alive_after_join: owners_alive, final_value, counts }
 }
 
 /// Free-running only: run the same program `reps` times on one set of worker threads (fresh
@@ -865,6 +876,20 @@ pub fn judge(case: &ThrCase, out: &RunOut, prop: Prop) -> R<CaseReport> {
     }
     if let Some(msg) = other {
         return Err(Stop::Tainted(msg));
+    }
+    // C19: counts at the quiescent moment after the join
+    if let Some(((oc, sc, st, wc), (owners, subs, weaks))) = out.counts {
+        rep.checks += 1;
+        if (oc, sc, st, wc) != (owners, subs, owners + subs, weaks) {
+            return fail(
+                prop,
+                &[C19],
+                format!(
+                    "after all threads were joined: observable_count {oc}, subscriber_count {sc}, strong_count {st}, weak_count {wc}; alive: {owners} handles, {subs} subscribers, {weaks} weak references ({})",
+                    sched()
+                ),
+            );
+        }
     }
     // C03: end of stream <=> no owner survived
     for (i, r1, _w1, r2, _w2) in &out.final_polls {
